@@ -20,13 +20,14 @@ for ID in "$@"; do
   # install the demo
   if [ -f $D/demo.diff ]; then git apply $D/demo.diff >>$LOG 2>&1 || echo "demo.diff does not apply" >>$LOG;
   else
-    NAME=$(grep -o -E "tests/[a-z0-9_]+\.rs" $D/README.md | head -1); [ -n "$NAME" ] || NAME=tests/seeded_demo.rs
-    if echo "$PKG" | grep -q server-core; then cp $D/demo_test.rs crates/polytune-server-core/$NAME 2>/dev/null || cp $D/demo_test.rs $NAME; else cp $D/demo_test.rs $NAME; fi
+    NAME=$(cat $D/demo_name 2>/dev/null); [ -n "$NAME" ] || NAME=$(grep -o -E "tests/[a-z0-9_]+\.rs" $D/README.md | head -1); [ -n "$NAME" ] || NAME=tests/seeded_demo.rs
+    if echo "$PKG" | grep -q server-core; then mkdir -p crates/polytune-server-core/tests; cp $D/demo_test.rs crates/polytune-server-core/$NAME; else cp $D/demo_test.rs $NAME; fi
   fi
   DEMO_CMD=$(cat $D/demo_cmd 2>/dev/null)
   if [ -z "$DEMO_CMD" ]; then
-    T=$(git status --porcelain | grep -o -E "tests/[a-z0-9_]+\.rs" | head -1 | sed -E 's#tests/(.*)\.rs#\1#')
-    if [ -n "$T" ]; then DEMO_CMD="cargo test --offline $PKG --test $T"; else F=$(grep -o -E "(seed|seeded)_demo_[ab]" $D/README.md | head -1); DEMO_CMD="cargo test --offline $PKG --lib $F"; fi
+    T=$(git status --porcelain -uall | grep -v seeded_out | grep -o -E "tests/[a-z0-9_]+\.rs" | head -1 | sed -E 's#tests/(.*)\.rs#\1#')
+    if echo "$PKG" | grep -q server-core; then PKGD="-p polytune-server-core"; else PKGD="$PKG"; fi
+    if [ -n "$T" ]; then DEMO_CMD="cargo test --offline $PKGD --test $T"; else F=$(grep -o -E "(seed|seeded)_demo_[ab]" $D/README.md | head -1); DEMO_CMD="cargo test --offline $PKG --lib $F"; fi
   fi
   echo "## demo with the change: $DEMO_CMD" >>$LOG
   timeout 1500 $DEMO_CMD >>$LOG 2>&1; WITH=$?
